@@ -222,5 +222,25 @@ CHECKS["C19"] = {
     "level_note": "Trusts the harness world; HEAD requests and HTTP/2 are outside this check.",
 }
 
+CHECKS["C20"] = {
+    "level": "exploration",
+    "engine": "harness/cmd",
+    "rule": "(a) TestVF_C20_RunOptions: complete table per run option (http-port, https-port, debug): flag absent / 2 values x "
+            "KAMAL_PROXY_<NAME> absent / every valid / every malformed value x <NAME> likewise; oracle: flag > prefixed > bare > default, "
+            "malformed => default, no cross-talk. (b) TestVF_C20_DeployValidation: complete table of the deploy flags involved in "
+            "validation (tls absent/true/false x 0-2 hosts x 5 path-prefix shapes x max-request-body x buffer-requests absent/true/false "
+            "x max-response-body x buffer-responses x forward-headers absent/true/false x certificate pair none/both/one x target "
+            "present/absent); oracle: refusal exactly for the documented combinations and before the run step (which contacts the proxy), "
+            "forward-headers default = not tls, bindings normalised as sent. (c) TestVF_C20_Binary: generated histories of client "
+            "commands run as subprocesses of the built binary against a running `kamal-proxy run`; oracle: exit status != 0 exactly "
+            "when the model says the proxy reports an error, `list` rows = the model's services. Non-trivial = a row where two sources "
+            "disagree / a refused combination / a command with an error outcome. Distinct by case tuple or plan hash.",
+    "layers": [L("TestVF_C20_RunOptions", 1, 1, shards=1, rapid=False, pkg="cmd"), L("TestVF_C20_DeployValidation", 1, 1, shards=1, rapid=False, pkg="cmd"),
+               L("TestVF_C20_Binary", 40, 300, shards=8, pkg="cmd", binary=True)],
+    "technique": "exhaustive decision-table enumeration in package cmd + property-based testing (rapid) of command histories against the built binary",
+    "level_text": "The two decision tables are enumerated completely; the binary layer is bounded random exploration.",
+    "level_note": "In-process layers construct fresh cobra commands per case; the binary layer uses real loopback sockets and wall-clock waits as generous guards (a guard hit is inconclusive, never a violation).",
+}
+
 ALL_IDS = ["C%02d" % i for i in range(1, 21)]
 NOT_APPLICABLE = {pid: "check not built yet (work in progress; see DESIGN.md section 8 for the order of work)" for pid in ALL_IDS if pid not in CHECKS}
